@@ -1,10 +1,10 @@
 SPECIFICATION Spec
 CONSTANTS
   Alphabet <- BigAlphabet
-  MaxLen = 3
+  MaxLen = 2
   Blocks <- BigBlocks
-  MaxBlocks = 5
-  BlockAfter = 3
+  MaxBlocks = 4
+  BlockAfter = 2
   Dump = TRUE
 INVARIANT AutomatonConsistent
 INVARIANT StrToNumberOK
